@@ -16,7 +16,7 @@ func init() { register("C14", runC14) }
 // C14: all 65 536 lifecycle values through the state mapping, the validator,
 // both profiles' setters and getters, and getter/Validate on a decoded claim.
 func runC14(c *mon.Ctx) {
-	c.Rule("exhaustive: every uint16 lifecycle value v through LifeCycleToState, IsValid, String, ValidateSecurityLifeCycle, P1/P2 setter+getter on a fresh object and on objects that already hold the same / a neighbouring / a valid value, and getter+Validate of a CBOR-decoded token carrying v; distinct = distinct (value) cases, non-trivial = all (each value exercises 10 calls)")
+	c.Rule("exhaustive: every uint16 lifecycle value v through LifeCycleToState, IsValid, String, ValidateSecurityLifeCycle, P1/P2 setter+getter on a fresh object and on objects that already hold the same / a neighbouring / a valid value, and getter+Validate of a CBOR-decoded and of a JSON-decoded token carrying v; for each v also the numbers v+2^16, v+0xffff*2^16 and v+2^32 (no state at all) in CBOR and JSON tokens, which must never be accepted nor reported by the getter; distinct = distinct (value) cases, non-trivial = all (each value exercises 10 calls)")
 	c.Exhaustive(true)
 	c.Floor("values", 65536)
 	g := model.NewGen(c.Seed)
@@ -147,6 +147,64 @@ func runC14(c *mon.Ctx) {
 					}
 				} else if obs.ClassOf(gerr) != model.WrongSyntax || obs.ClassOf(verr) != model.WrongSyntax {
 					bad(fmt.Sprintf("P%d.decoded-invalid", p), fmt.Sprint(got, gerr, verr))
+				}
+				// the same through JSON
+				ms := a.JSONMembers()
+				jdc, jerr := psatoken.DecodeClaimsFromJSON(model.MembersJSON(ms))
+				c.Eval()
+				if jerr != nil {
+					bad(fmt.Sprintf("P%d.DecodeJSON", p), jerr)
+				} else {
+					jgot, jgerr := jdc.GetSecurityLifeCycle()
+					jverr := jdc.Validate()
+					if want >= 0 {
+						if jgerr != nil || jgot != u || jverr != nil {
+							bad(fmt.Sprintf("P%d.json-decoded-valid", p), fmt.Sprint(jgot, jgerr, jverr))
+						}
+					} else if obs.ClassOf(jgerr) != model.WrongSyntax || obs.ClassOf(jverr) != model.WrongSyntax {
+						bad(fmt.Sprintf("P%d.json-decoded-invalid", p), fmt.Sprint(jgot, jgerr, jverr))
+					}
+				}
+				// numbers WIDER than 16 bits whose low 16 bits are v have no state at
+				// all: a token carrying one (CBOR or JSON) must never be accepted, and if
+				// the non-validating decoder lets it through the getter must refuse it
+				for _, k := range []uint64{1, 0xffff, 1 << 16} {
+					wide := uint64(u) + k<<16
+					c.Count("wider-than-16-bit-values")
+					w := a.WireCBOR()
+					for j := 0; j+1 < len(w.Items); j += 2 {
+						if kk, _ := w.Items[j].Int64(); kk == model.KeyOf(p, "lifecycle") {
+							w.Items[j+1] = refcbor.U(wide)
+						}
+					}
+					wms := append([]model.Member{}, ms...)
+					for j := range wms {
+						if wms[j].Name == "psa-security-lifecycle" {
+							wms[j].Value = fmt.Sprint(wide)
+						}
+					}
+					for _, fam := range []string{"cbor", "json"} {
+						var x, xv psatoken.IClaims
+						var e1, e2 error
+						if fam == "cbor" {
+							in := refcbor.Encode(w)
+							x, e1 = psatoken.DecodeClaimsFromCBOR(in)
+							xv, e2 = psatoken.DecodeAndValidateClaimsFromCBOR(in)
+						} else {
+							in := model.MembersJSON(wms)
+							x, e1 = psatoken.DecodeClaimsFromJSON(in)
+							xv, e2 = psatoken.DecodeAndValidateClaimsFromJSON(in)
+						}
+						c.Eval()
+						if e2 == nil {
+							st, _ := xv.GetSecurityLifeCycle()
+							bad(fmt.Sprintf("P%d.%s-accepted-wider-than-16-bits", p, fam), fmt.Sprintf("life cycle %d (0x%x) accepted, reported as 0x%04x", wide, wide, st))
+						} else if e1 == nil {
+							if st, ge := x.GetSecurityLifeCycle(); ge == nil {
+								bad(fmt.Sprintf("P%d.%s-getter-accepts-wider-than-16-bits", p, fam), fmt.Sprintf("life cycle %d (0x%x): getter returns 0x%04x", wide, wide, st))
+							}
+						}
+					}
 				}
 			}
 		})
